@@ -1,5 +1,6 @@
 #!/bin/sh
 # Engine self-test: scratch functions (never part of /repo) whose verdict is known, run in a scratch worktree.
+#  - ghosts set by hooks in a loop are havocked at the cut (zapply / zapplyclamp)
 #  - loop havoc by rows: writes to one fixed object leave other objects alone (zfill, zfillmap must verify);
 #    writes through a pointer that moves (zwalk: a local, zheap: a heap field) must NOT (ensures must fail).
 export GOFLAGS=-mod=mod GOPROXY=off
@@ -25,5 +26,9 @@ expect zfill ok
 expect zfillmap ok
 expect zwalk fail 'ensures#1'
 expect zheap fail 'ensures#1'
-[ $rc -eq 0 ] && echo "engine selftest: 4 expectations ok"
+# ghosts assigned by hooks (here keyed by the function value's type) are havocked at the loop cut: the value
+# after the loop is what the last callback left (zapply verifies), and a later adjustment is seen (zapplyclamp fails)
+expect zapply ok
+expect zapplyclamp fail 'ensures#1'
+[ $rc -eq 0 ] && echo "engine selftest: 6 expectations ok"
 exit $rc
